@@ -20,8 +20,21 @@
                            (witnesses in VrlProofs/Witness/C20.lean)
     roundtrip_segment_partial   `Display for OwnedSegment` round-trips when the field contains
                            neither `"` nor `\` (it quotes without escaping: witness)
+
+  Clause (2), a path written in VRL source denotes the location the string parser assigns to the
+  same text:
+    agree_partial          for every text `t` (any characters, any length): if the VRL-source path
+                           syntax (model `PathVrl.vrlPath`) accepts `t` as `tp₁` and `parse_target_path`
+                           accepts it as `tp₂`, then `tp₁ = tp₂` — provided `t` contains neither `{{`
+                           nor `\}}` (hypothesis = complement of the finding class `hasTemplate`).
+                           Without the hypothesis the statement is false of the code: a quoted field
+                           goes through the template-string machinery in VRL source (witnesses).
+    Partial in a second sense (stated, DESIGN §7 C20): `vrlPath` models the path sub-grammar only;
+    which texts the real lexer/parser accept as one external query is established by the `c20.vrl`
+    correspondence (exhaustive over the path alphabet up to length 5/6), not by proof.
 -/
 import VrlProofs.Lemmas.PathText
+import VrlProofs.Lemmas.PathVrl
 import VrlModel.C20
 
 namespace C20
@@ -56,7 +69,7 @@ theorem roundtrip_event (p : CPath) (hr : p.inRange = true) :
     have hp : getTargetPrefix ('.' :: renderC p) = (.event, '.' :: renderC p) := by
       have : ('.' == '%') = false := by decide
       simp [getTargetPrefix, this]
-    simp only [parseTargetPath, renderTargetC, prefixChar, hp, hv]
+    simp only [parseTargetPath, renderTargetC, prefixChar, hp, hv, TResult.ofPResult]
 
 /-- (1c) metadata target paths with at least one segment round-trip. -/
 theorem roundtrip_metadata (p : CPath) (hne : p ≠ []) (hr : p.inRange = true) :
@@ -66,7 +79,8 @@ theorem roundtrip_metadata (p : CPath) (hne : p ≠ []) (hr : p.inRange = true) 
   · simp [renderTarget, toC_toPath]
   · have hp : getTargetPrefix ('%' :: renderC p) = (.metadata, renderC p) := by
       simp [getTargetPrefix]
-    simp only [parseTargetPath, renderTargetC, prefixChar, hp, (roundtrip_value p hne hr).2]
+    simp only [parseTargetPath, renderTargetC, prefixChar, hp, (roundtrip_value p hne hr).2,
+      TResult.ofPResult]
 
 theorem toPath_eq_nil {p : CPath} : p.toPath = [] ↔ p = [] := by
   cases p <;> simp [CPath.toPath]
@@ -172,5 +186,86 @@ theorem roundtrip_segment_partial (s : CSeg) (hr : s.inRange = true)
         rw [if_neg (by simp), jit_go _ step_start_quote, h2]
         rfl
   simp [segRoundTripHolds, key, ofPResult]
+
+/-! ### clause (2) -/
+
+open PathVrl in
+/-- (2, partial) the Spec predicate `agreeHolds` (the one the oracle evaluates on the
+    implementation's two answers) holds of the two models for every text without `{{` / `\\}}`:
+    whenever the VRL-source syntax and the string parser both accept, they denote the same path. -/
+theorem agree_partial (t : List Char) (ht : hasTemplate t = false) :
+    agreeHolds (vrlPath t) (parseTargetPath t) = true := by
+  -- it suffices to show equality of the two target paths when both accept
+  suffices h : ∀ tp₁ tp₂, vrlPath t = .path tp₁ → parseTargetPath t = .ok tp₂ → tp₁ = tp₂ by
+    unfold agreeHolds
+    split
+    · next tp₁ tp₂ h1 h2 => simp [h tp₁ tp₂ h1 h2]
+    · rfl
+  intro tp₁ tp₂ hv hs
+  cases t with
+  | nil => simp [vrlPath] at hv
+  | cons c rest =>
+    have htr := (hasTemplate_cons ht).2
+    by_cases hb : isBlank c = true
+    · -- a leading blank: the string parser rejects
+      exfalso
+      have hne : (c == '%') = false := beq_false_of_blank hb (by decide)
+      have : parseTargetPath (c :: rest) = .err := by
+        simp [parseTargetPath, getTargetPrefix, hne, parseValuePath,
+          jit_invalid rest (step_blank_start hb), TResult.ofPResult]
+      rw [this] at hs
+      cases hs
+    · have hb' : isBlank c = false := by simpa using hb
+      by_cases hd : (c == '.') = true
+      · have := eq_of_beq hd; subst this
+        have hv' : vrlPath ('.' :: rest) = VTarget.ofVResult .event (vrun .afterPrefix rest) := by
+          simp [vrlPath, hb']
+        have hne : ('.' == '%') = false := by decide
+        have hs' : parseTargetPath ('.' :: rest) = TResult.ofPResult .event (jit .eventRoot rest) := by
+          simp [parseTargetPath, getTargetPrefix, hne, parseValuePath, jit_go rest step_start_dot]
+        rw [hv'] at hv
+        rw [hs'] at hs
+        have hsim := sim rest _ _ Rel.preEvent (by simpa [pending] using htr)
+        cases h1 : vrun .afterPrefix rest with
+        | path p₁ =>
+          cases h2 : jit .eventRoot rest with
+          | ok p₂ =>
+            rw [h1] at hv; rw [h2] at hs
+            cases hv; cases hs
+            rw [hsim p₁ p₂ h1 h2]
+          | err => rw [h2] at hs; cases hs
+          | panic => rw [h2] at hs; cases hs
+        | nopath => rw [h1] at hv; cases hv
+        | panic => rw [h1] at hv; cases hv
+      · have hd' : (c == '.') = false := by simpa using hd
+        by_cases hp : (c == '%') = true
+        · have := eq_of_beq hp; subst this
+          have hv' : vrlPath ('%' :: rest) = VTarget.ofVResult .metadata (vrun .afterPrefix rest) := by
+            simp [vrlPath, hb', hd']
+          have hs' : parseTargetPath ('%' :: rest) = TResult.ofPResult .metadata (jit .start rest) := by
+            simp [parseTargetPath, getTargetPrefix, parseValuePath]
+          rw [hv'] at hv
+          rw [hs'] at hs
+          have hsim := sim rest _ _ Rel.preMeta (by simpa [pending] using htr)
+          cases h1 : vrun .afterPrefix rest with
+          | path p₁ =>
+            cases h2 : jit .start rest with
+            | ok p₂ =>
+              rw [h1] at hv; rw [h2] at hs
+              cases hv; cases hs
+              rw [hsim p₁ p₂ h1 h2]
+            | err => rw [h2] at hs; cases hs
+            | panic => rw [h2] at hs; cases hs
+          | nopath => rw [h1] at hv; cases hv
+          | panic => rw [h1] at hv; cases hv
+        · have hp' : (c == '%') = false := by simpa using hp
+          simp [vrlPath, hb', hd', hp'] at hv
+
+/-- (2, partial) in words: both accept ⇒ same target path. -/
+theorem agree_both_accept (t : List Char) (tp₁ tp₂ : TargetPath) (ht : hasTemplate t = false)
+    (hv : PathVrl.vrlPath t = .path tp₁) (hs : parseTargetPath t = .ok tp₂) : tp₁ = tp₂ := by
+  have := agree_partial t ht
+  rw [hv, hs] at this
+  simpa [agreeHolds] using this
 
 end C20
